@@ -163,7 +163,7 @@ def crashsave(ctx, *args):
 
 def jobs(tier, seed, excluded=()):
     rng = random.Random(seed)
-    dom = Dom(int_max=9, int_cands=["-3"], str_mode="cand", str_cands=["", "p", 'q"t'], hex_cands=["0x1f", "1f"], float_cands=["5", "0.25"])
+    dom = Dom(int_max=9, int_cands=["-3"], str_mode="cand", str_cands=["", "p", 'q"t', "Gr\u00f6\u00dfe"], hex_cands=["0x1f", "1f"], float_cands=["5", "0.25"])
     odom = Dom(int_max=9, int_cands=["-3"], str_mode="cand", str_cands=["p", "zz"], hex_cands=["0x1f", "0x2"], float_cands=["0.25", "5"])
     if tier == "quick":
         trees, budget, nt, tmo = [("T01", False), ("T05", False), ("T07", False), ("T13b", True)], 9, 2, 150
